@@ -762,6 +762,27 @@ DICT_TEXTS = [
 ]
 
 
+CONSUMER_TEXTS = {
+    # skrifa charmap `Mappings::next`: one `iter.next()` … `?` per turn
+    "skrifa/src/charmap.rs":
+        "fn next(&mut self) -> Option<Self::Item> { loop { let item = match &mut self.0 { MappingsInner::None => None, "
+        "MappingsInner::Format4(iter) => iter.next(), MappingsInner::Format12(iter) => iter.next(), }?; "
+        "if item.1 != GlyphId::NOTDEF { return Some(item); } } }",
+    # skrifa string `LocalizedStrings::next`: one `self.records.next()?` per turn
+    "skrifa/src/string.rs":
+        "fn next(&mut self) -> Option<Self::Item> { let name = self.name.as_ref()?; loop { "
+        "let record = self.records.next()?; if record.name_id() == self.id { "
+        "return Some(LocalizedString::new(name, record)); } } }",
+}
+
+
+def check_consumers(read):
+    """further one-item-per-turn consumer loops covered by `consume_loop_terminates`"""
+    for rel, t in CONSUMER_TEXTS.items():
+        if t not in " ".join(B.strip_comments(read(rel)).split()):
+            raise Unsupported(f"{rel} no longer reads `{t[:90]}…` (Model/LoopIter.lean consumeLoop transcribes it)")
+
+
 def check_dict(read):
     """Model/LoopIter.lean `consumeLoop` transcribes these two consumer loops"""
     flat = " ".join(B.strip_comments(read(DICT_REL)).split())
@@ -796,6 +817,7 @@ def generate(read):
     check_bsearch(read)
     check_charset(read)
     check_dict(read)
+    check_consumers(read)
     L_defs, header, stats = [], [], []
     for spec in LOOPS:
         src = B.strip_comments(read(spec["file"]))
